@@ -25,9 +25,6 @@ def IsKron [Mul α] (A B K : Mat α) : Prop :=
   ∀ i1 i2 j1 j2, i1 < A.r → i2 < B.r → j1 < A.c → j2 < B.c →
     K.f (enc (pair A.r B.r) (pair i1 i2) 2) (enc (pair A.c B.c) (pair j1 j2) 2) = A.f i1 j1 * B.f i2 j2
 
-/-- entrywise equality of matrices of the same shape (entries outside the shape are not compared) -/
-def Mat.Same (A B : Mat α) : Prop := A.r = B.r ∧ A.c = B.c ∧ ∀ i j, i < A.r → j < A.c → A.f i j = B.f i j
-
 /-- prefix sum `l[0] + … + l[k-1]` of a list (missing entries count 0) -/
 def prefixSum (l : List Rat) (k : Nat) : Rat := sumN k (fun i => l.getD i 0)
 
